@@ -91,7 +91,7 @@ var props = []propCfg{
 			{Name: "TestLibraryPaths", Rapid: true, Quick: 4000, Thorough: 100000, ShardsQ: 4, ShardsT: 4},
 			{Name: "TestEndToEnd", Rapid: true, Quick: 96, Thorough: 1600, ShardsQ: 16, ShardsT: 16},
 		},
-		Rule:      "in-process: Go types mirroring fc's representation of records (exported and lower-case fields, generic, recursive), unions (interface + case structs), tuples and slices, 24 root types up to slice nesting 3; rapid draws a model tree, builds the Go value (one slice node in 25 is long: 31..33, 63..65, 127..129 or 257 elements cycling through 1..3 generated elements) through a drawn construction path per slice (exact, nil, grown by append, spare capacity with foreign data in the hidden tail, middle of a larger array, empty suffix), and forms pairs (rebuilt copy by other paths | one place mutated | independent | sharing memory: b is a with one of its slices replaced by a's very slice value, or by a re-slice of it without its last / first element, as slice.PopLast / slice.Tail return) and triples; frt.OpEqual/OpNotEqual are compared with reference equality on the model trees, both argument orders, plus reflexivity and transitivity. A second property compares the same contents produced by 13 different pkg/slice call paths. End to end: programs of the `equality` profile of the C01 generator (records with lower-case field names, = / <> on composite values, empty slices via slice.New and via library calls) are transpiled, compiled and run and their printed booleans compared with the reference evaluator. Non-trivial = a value containing a slice or a lower-case-field record (end to end: a program comparing composite values); distinct = hash of (type, model trees incl. paths).",
+		Rule:      "in-process: Go types mirroring fc's representation of records (exported and lower-case fields, generic, recursive), unions (interface + case structs), tuples and slices, 24 root types up to slice nesting 3; rapid draws a model tree, builds the Go value (one slice node in 25 is long: 31..33, 63..65, 127..129 or 257 elements cycling through 1..3 generated elements) through a drawn construction path per slice (exact, nil, grown by append, spare capacity with foreign data in the hidden tail, middle of a larger array, empty suffix), and forms pairs (rebuilt copy by other paths | one place mutated | independent | sharing memory: b is a with one of its slices replaced by a's very slice value, or by a re-slice of it without its last / first element, as slice.PopLast / slice.Tail return) and triples; frt.OpEqual/OpNotEqual are compared with reference equality on the model trees, both argument orders, plus reflexivity and transitivity. Operand pairs are also built with memory shared between the operands and inside both operands (the same backing array reached at two places with different lengths). A second property compares the same contents produced by 13 different pkg/slice call paths. End to end: programs of the `equality` profile of the C01 generator (records with lower-case field names, = / <> on composite values, empty slices via slice.New and via library calls) are transpiled, compiled and run and their printed booleans compared with the reference evaluator. Non-trivial = a value containing a slice or a lower-case-field record (end to end: a program comparing composite values); distinct = hash of (type, model trees incl. paths).",
 		Technique: "property-based testing (rapid) against reference structural equality on model trees; metamorphic (same contents via different construction paths)",
 		Assumptions: []string{
 			"first-order values only (no functions, no floats, no dicts), as the property states",
@@ -122,7 +122,7 @@ var props = []propCfg{
 			{Name: "TestChainsExhaustive", ShardsQ: 16, ShardsT: 16},
 			{Name: "TestChainsSampled", Rapid: true, Quick: 6400, Thorough: 160000, ShardsQ: 16, ShardsT: 16},
 		},
-		Rule:      "exhaustive part: every sequence of 1..4 operators over the 12 non-pipe operators between distinct un-annotated variables (22,620 chains, 150 functions per fc run; a function whose emitted grouping differs is re-decided alone). Sampled part (rapid): chains of 1..5 operators whose operands are variables, applications `g v`, parenthesised sub-chains (nesting <= 2, optionally with redundant parentheses) and `not`-prefixed operands, with `|>` at any position and a line break before any operator. The operator tree of the emitted Go return expression (go/parser; frt.OpEqual/OpNotEqual/OpNot/Pipe mapped back to = <> not |>) must equal the tree a reference parser builds from the token chain by 'split at the rightmost operator of the lowest rank' over the published table. Non-trivial = >= 2 operators of >= 2 different ranks, or equal ranks across a line break; distinct = hash of the source text.",
+		Rule:      "exhaustive part: every sequence of 1..4 operators over the 12 non-pipe operators between distinct un-annotated variables (22,620 chains, 150 functions per fc run; a function whose emitted grouping differs is re-decided alone). Sampled part (rapid): chains of 1..5 operators whose operands are variables, applications `g v`, parenthesised sub-chains (nesting <= 2, optionally with redundant parentheses) and `not`-prefixed operands, with `|>` at any position and a line break before any operator. Operands also include int literals (so `a -1` and `a - 1` both occur) and every operator is written with one of four spacings (blank on both sides, none, left only, right only) where the token rules allow it. The operator tree of the emitted Go return expression (go/parser; frt.OpEqual/OpNotEqual/OpNot/Pipe mapped back to = <> not |>) must equal the tree a reference parser builds from the token chain by 'split at the rightmost operator of the lowest rank' over the published table. Non-trivial = >= 2 operators of >= 2 different ranks, or equal ranks across a line break; distinct = hash of the source text.",
 		Technique: "exhaustive enumeration + property-based testing (rapid) against a reference parser built from the published operator table",
 		Assumptions: []string{
 			"variables are un-annotated, so fc's structural unification accepts every chain; if fc rejects a chain that is ill-typed under ordinary typing the chain is skipped and counted (0 on the pinned tree), a rejected well-typed chain is a violation",
@@ -139,7 +139,7 @@ var props = []propCfg{
 			{Name: "TestMatchContexts", Rapid: true, Quick: 3200, Thorough: 64000, ShardsQ: 16, ShardsT: 16},
 			{Name: "TestMatchSequences", Rapid: true, Quick: 3200, Thorough: 64000, ShardsQ: 16, ShardsT: 16},
 		},
-		Rule:      "exhaustive part: unions with n = 1..4 cases x payload mask (2^n) x every non-empty ordered subset of arms x arm form per arm (payload case: bind-and-use / `_` / no pattern; no-payload case: bare) x with/without trailing default = 21,576 candidates on every run; n = 5 with fixed arm forms sampled 1-in-7 in quick and all 405,120 candidates in thorough. Expected-reject candidates cost one fc run each (sentinel gen file in place beforehand); expected-accept candidates share files of up to 60 functions and are re-decided alone on any surprise. Sampled part (rapid): the match placed in a let right-hand side, either if branch, a first/last arm of an outer match, an arm of an outer union or string match that continues with its own `| _ ->` arm at the outer column, (must-reject candidates only) a target fc cannot type where the match is parsed - an un-annotated lambda parameter, slice.Head us - and an extra non-binding arm naming a case of another union or an undeclared name, a lambda with annotated parameter, a local function, on a let-bound value; over plain, generic, and-group and other-file union declarations. Sequences (rapid): 2..4 matches on the SAME union in one file (each in its own function and context, usually accepted ones first, the last one optionally nested in an arm of an exhaustive match on the same union): the file is rejected iff some match must be, and the diagnostic names a case the first offending match leaves uncovered - the decision for a match must not depend on the matches processed before it. Oracle: reject <=> (no default and a case missing); reject = non-zero exit, every KaseN named in the diagnostic is really uncovered (and at least one is named), sentinel gen file untouched; accept = exit 0, gen file written, the emitted type switch lists exactly the source arms in order plus the user default or the never-reached panic. Non-trivial = >= 2 arms not in declaration order, or a missing case that is not the last declared one; distinct = hash of the candidate.",
+		Rule:      "exhaustive part: unions with n = 1..4 cases x payload mask (2^n) x every non-empty ordered subset of arms x arm form per arm (payload case: bind-and-use / `_` / no pattern; no-payload case: bare) x with/without trailing default = 21,576 candidates on every run; n = 5 with fixed arm forms sampled 1-in-7 in quick and all 405,120 candidates in thorough. Expected-reject candidates cost one fc run each (sentinel gen file in place beforehand); expected-accept candidates share files of up to 60 functions and are re-decided alone on any surprise. Sampled part (rapid): the match placed in a let right-hand side, either if branch, a first/last arm of an outer match, an arm of an outer union or string match that continues with its own `| _ ->` arm at the outer column, (must-reject candidates only) a target fc cannot type where the match is parsed - an un-annotated lambda parameter, slice.Head us - and an extra non-binding arm naming a case of another union or an undeclared name, a lambda with annotated parameter, a local function, on a let-bound value; over plain, generic, and-group and other-file union declarations. Sequences (rapid): 2..4 matches on the SAME union in one file (each in its own function and context, usually accepted ones first, the last one optionally nested in an arm of an exhaustive match on the same union): the file is rejected iff some match must be, and the diagnostic names a case the first offending match leaves uncovered - the decision for a match must not depend on the matches processed before it. Must-reject candidates also come with a repeated arm, a foreign or undeclared case name, and an un-annotated (not yet typed) target; accept candidates also stand after an earlier arm / an earlier match whose payload binder has the name of the matched parameter. Oracle: reject <=> (no default and a case missing); reject = non-zero exit, every KaseN named in the diagnostic is really uncovered (and at least one is named), sentinel gen file untouched; accept = exit 0, gen file written, the emitted type switch lists exactly the source arms in order plus the user default or the never-reached panic. Non-trivial = >= 2 arms not in declaration order, or a missing case that is not the last declared one; distinct = hash of the candidate.",
 		Technique: "exhaustive enumeration of the bounded domain + property-based testing (rapid) for nesting contexts, against the property's own biconditional as oracle",
 		Assumptions: []string{
 			"the matched value has a declared union type where the match is written (annotated parameter / let-bound from one), as section 3 of DESIGN.md derives from the documents",
@@ -155,7 +155,7 @@ var props = []propCfg{
 			{Name: "TestTypesExhaustive", ShardsQ: 16, ShardsT: 16},
 			{Name: "TestTypesSampled", Rapid: true, Quick: 3200, Thorough: 80000, ShardsQ: 16, ShardsT: 16},
 		},
-		Rule:      "a type-expression AST over {int,string,bool,float,any, user record/union, external ext.Thing, package-_ type} with constructors [] , 2/3-tuples, 1/2-argument function types (incl. ()->A, A->(), A->B->()), generic user G<T>, external ext.Box<T>, ext.Pair<K,V>; printed with minimal parentheses by the documented precedence ([] > * > ->, flat arrows) and optionally redundant parentheses; placed in parameter annotation, record field, union payload, package_info signature (read from the closure type of a partial application), explicit type argument of the qualified slice.New and explicit type argument of an unqualified package_info _ function. Exhaustive: all expressions with <= 1 constructor over the full atom set in all 6 positions, and again in the record-field and payload positions of an and-group that declares the non-generic user types it mentions only later (forward references; at most 14 expressions per group because fc allots 100 placeholders per type statement), plus all 2-constructor expressions over {int,string,ext.Thing} in the record-field position (quick) / all positions and 3 constructors over {int,ext.Thing} in the field position (thorough); sampled: rapid expressions to depth 3 with redundant parentheses in all positions. The Go type found at the position (go/parser, go/types.ExprString) must equal the reference translation. One evaluation = one (expression, position) comparison. Non-trivial = combines >= 2 of {slice, tuple, function, generic} or carries redundant parentheses; distinct = hash of the expression text (per position set).",
+		Rule:      "a type-expression AST over {int,string,bool,float,any, user record/union, external ext.Thing, package-_ type} with constructors [] , 2/3-tuples, 1/2-argument function types (incl. ()->A, A->(), A->B->()), generic user G<T>, external ext.Box<T>, ext.Pair<K,V>; printed with minimal parentheses by the documented precedence ([] > * > ->, flat arrows) and optionally redundant parentheses; placed in parameter annotation, record field, union payload, package_info signature (read from the closure type of a partial application), explicit type argument of the qualified slice.New and explicit type argument of an unqualified package_info _ function. Exhaustive: all expressions with <= 1 constructor over the full atom set in all 6 positions, and again in the record-field and payload positions of an and-group that declares the non-generic user types it mentions only later (forward references; at most 14 expressions per group because fc allots 100 placeholders per type statement), plus all 2-constructor expressions over {int,string,ext.Thing} in the record-field position (quick) / all positions and 3 constructors over {int,ext.Thing} in the field position (thorough); sampled: rapid expressions to depth 3 with redundant parentheses in all positions. Generic constructors in the grammar: a user generic record, a user generic union and dict.Dict; a sixth position is an explicit type argument on an unqualified package_info function; and-groups with forward references are a pseudo-position. The Go type found at the position (go/parser, go/types.ExprString) must equal the reference translation. One evaluation = one (expression, position) comparison. Non-trivial = combines >= 2 of {slice, tuple, function, generic} or carries redundant parentheses; distinct = hash of the expression text (per position set).",
 		Technique: "exhaustive enumeration of small type expressions + property-based testing (rapid) against a reference type translator",
 		Assumptions: []string{
 			"the property statement's grammar is the authority ([] binds tighter than *), as it says",
@@ -170,7 +170,7 @@ var props = []propCfg{
 		Tests: []testCfg{
 			{Name: "TestReadme", Rapid: true, Quick: 3200, Thorough: 80000, ShardsQ: 16, ShardsT: 16},
 		},
-		Rule:      "rapid draws a directory: 0..8 list entries `name[.fo] [title words]` (titles with several and doubled spaces, entries without title, names without .fo, the same file listed twice), empty lines anywhere in the list, final newline present or not, the tool invoked with a relative, absolute or sub-directory list path; file contents (one in twenty continues with a 70,000-character line, 30,000 short lines or 15 KB without a line end) are lines chosen to look like README structure (code fences, ### headings, the header line, a 'generated go:' link, CR, tabs, UTF-8) or raw text. One case in six makes a listed file unreadable (missing / a directory) with a sentinel README in place. Oracle: a sequential consumer of README.md in the list's directory (header, then per non-empty list line in order: `### <title>`, opening fence, exactly the file's bytes consumed by length, closing fence, the gen_<base>.go link; only blank lines between elements, nothing after the last); fault cases: non-zero exit and the sentinel README intact. Non-trivial = >= 2 entries with at least one multi-word title and one entry without title; distinct = hash of the case.",
+		Rule:      "rapid draws a directory: 0..8 list entries `name[.fo] [title words]` (titles with several and doubled spaces, entries without title, names without .fo, the same file listed twice), empty lines anywhere in the list, final newline present or not, the tool invoked with a relative, absolute or sub-directory list path; file contents (one in twenty continues with a 70,000-character line, 30,000 short lines or 15 KB without a line end) are lines chosen to look like README structure (code fences, ### headings, the header line, a 'generated go:' link, CR, tabs, UTF-8) or raw text. One case in six makes a listed file unreadable (missing / a directory) with a sentinel README in place. List lines may end in CR LF and one listed file may be bulky (thousands of lines). Oracle: a sequential consumer of README.md in the list's directory (header, then per non-empty list line in order: `### <title>`, opening fence, exactly the file's bytes consumed by length, closing fence, the gen_<base>.go link; only blank lines between elements, nothing after the last); fault cases: non-zero exit and the sentinel README intact. Non-trivial = >= 2 entries with at least one multi-word title and one entry without title; distinct = hash of the case.",
 		Technique: "property-based testing (rapid) of the rebuilt tool against a sequential reference reader of the documented README layout",
 		Assumptions: []string{
 			"blank-line counts between the elements are not part of the property (exact bytes of the shipped README are C04's business)",
@@ -190,7 +190,7 @@ var props = []propCfg{
 			{Name: "TestKnown", ShardsQ: 1, ShardsT: 1},
 			{Name: "TestNativeFuzz", ShardsQ: 1, ShardsT: 1},
 		},
-		Rule:      "seeds: every samples/*.fo, build_sample_md.fo and the hand-kept programs in corpus/seeds. Mutants (rapid, 1..3 composed): truncation, token deletion/duplication/swap/replacement, indentation damage (+-k columns, tabs), an opener (comment, string, raw string, interpolation, brace, bracket, keyword) inserted anywhere or left open at end of file with/without final newline, raw bytes (NUL, 0xff, CR, partial UTF-8, BOM), line deletion/duplication/swap, a slice of another seed spliced in, span deletion, and a family of 18 self-referential definitions appended. Exhaustive parts: every truncation offset of the 4 (quick) / 14 (thorough) smallest seeds; a fixed list of argument-list faults (no arguments, missing input, directory as input, empty file, .fo after a failing .fo, .foi only), output-path faults (destination is a directory, a dangling symlink, a symlink to /dev/full; also as second file) and every opener left open at end of file. Scale (rapid): 39 templates that repeat or nest one construct N times (nested parentheses / applications / not / slice literals / lambdas / if-else, operator and pipe chains, many lets / functions / parameters / record fields / union cases / match arms / package_info entries, long literals, identifiers, comments, lines, indentation, nested and long types), N drawn on a logarithmic scale up to a per-template bound at which fc's polynomial running time stays far below the time limit. Every scale input ends with one more definition whose translation must be present when fc exits 0 (completely written). Oracle: fc ends within 15 s (re-confirmed alone with 120 s), is not killed by a signal and prints no Go runtime fatal error; exit 0 => every requested gen_*.go exists, is not the sentinel and equals what a second run in a fresh directory writes; exit != 0 => some text beyond the progress lines was printed and the sentinel at the offending (and every later) file's destination is intact. Thorough tier only: 7 minutes of Go's native coverage-guided fuzzer on an in-process copy of the compiler (fc's Go files copied inside the scratch snapshot plus one fuzz target; pkg_all.foi, then the input, fresh global tables, 10 s watchdog), seeded with the same seeds and hostile constants; every input the fuzzer reports is re-decided with the real binary through the oracle above and only a confirmed one is a violation; executions are counted as evaluations, the inputs the fuzzer kept for new coverage as non-trivial. Non-trivial = rejected mutants whose first changed byte lies after the seed's first complete definition, accepted mutants that differ from the seed, and all fault cases; distinct = hash of the file content / case.",
+		Rule:      "seeds: every samples/*.fo, build_sample_md.fo and the hand-kept programs in corpus/seeds. Mutants (rapid, 1..3 composed): truncation, token deletion/duplication/swap/replacement, indentation damage (+-k columns, tabs), an opener (comment, string, raw string, interpolation, brace, bracket, keyword) inserted anywhere or left open at end of file with/without final newline, raw bytes (NUL, 0xff, CR, partial UTF-8, BOM), line deletion/duplication/swap, a slice of another seed spliced in, span deletion, and a family of 18 self-referential definitions appended. Exhaustive parts: every truncation offset of the 4 (quick) / 14 (thorough) smallest seeds; a fixed list of argument-list faults (no arguments, missing input, directory as input, empty file, .fo after a failing .fo, .foi only), output-path faults (destination is a directory, a dangling symlink, a symlink to /dev/full; also as second file) and every opener left open at end of file. Scale (rapid): 39 templates that repeat or nest one construct N times (nested parentheses / applications / not / slice literals / lambdas / if-else, operator and pipe chains, many lets / functions / parameters / record fields / union cases / match arms / package_info entries, long literals, identifiers, comments, lines, indentation, nested and long types), N drawn on a logarithmic scale up to a per-template bound at which fc's polynomial running time stays far below the time limit. Every scale input ends with one more definition whose translation must be present when fc exits 0 (completely written). Oracle: fc ends within 15 s (re-confirmed alone with 120 s), is not killed by a signal and prints no Go runtime fatal error; exit 0 => every requested gen_*.go exists, is not the sentinel and equals what a second run in a fresh directory writes; exit != 0 => some text beyond the progress lines was printed and the sentinel at the offending (and every later) file's destination is intact. Thorough tier only: 7 minutes of Go's native coverage-guided fuzzer on an in-process copy of the compiler (fc's Go files copied inside the scratch snapshot plus one fuzz target; pkg_all.foi, then the input, fresh global tables, 10 s watchdog), seeded with the same seeds and hostile constants; every input the fuzzer reports is re-decided with the real binary through the oracle above and only a confirmed one is a violation; executions are counted as evaluations, the inputs the fuzzer kept for new coverage as non-trivial. Argument-list faults include arguments ending in neither .fo nor .foi (upper-case suffix, no suffix, empty string, a directory) next to good files; the completeness run starts from a stale, longer gen file half the time; scale templates (TestScale) grow 39 shapes to sizes bounded by the known findings. Non-trivial = rejected mutants whose first changed byte lies after the seed's first complete definition, accepted mutants that differ from the seed, and all fault cases; distinct = hash of the file content / case.",
 		Technique: "mutation-based fuzzing of valid programs driven by rapid (shrinkable), exhaustive truncation sweeps and fault enumeration, with a process-behaviour validity oracle",
 		Assumptions: []string{
 			"an ordinary Go panic message with non-zero exit is a diagnostic (the project documents that errors are panics); only runtime fatal errors, signals and hangs are not",
@@ -208,7 +208,7 @@ var props = []propCfg{
 			{Name: "TestKnown", ShardsQ: 1, ShardsT: 1},
 			{Name: "TestPrograms", Rapid: true, Quick: 320, Thorough: 6400, ShardsQ: 16, ShardsT: 16},
 		},
-		Rule:      "type-directed generation (rapid) of whole programs of the documented subset: shared record/union declarations (incl. self-referential ones), a prelude with the probe function and generic helpers, 1..8 units (helper functions, a recursive template, an entry function, one printing line in main), bodies built from lets, destructuring, function-valued lets, local functions (closures), lambdas, partial application of user / library / constructor functions, pipes and pipe chains, if/elif/else as statement and value, union match (all arm forms, default, any order) and string match (variable arm / default), records (permuted and qualified literals, field access, _.Field), tuples, slices, the operators, the four string literal forms (plain ones with \\t \\n \\\" \\\\ escapes) and standard-library calls incl. buf.Buffer episodes (writes direct, piped, under an if, through a partial application or a closure handed to slice.Iter) and dict.Dict episodes (dict.New with explicit type arguments / dict.ToDict, overwriting Adds, TryFind / ContainsKey / Item incl. absent keys, Keys / Values / KVs only through slice.Sort or slice.Length); one let in four reuses the name of a variable of an enclosing block (shadowing); mixed && / || chains of 3..4 probed operands grouped to either side; a one-line if without else as last statement of a then-block that is followed by else; a union / string match with valued arms written as a statement (value discarded); formats with %% and strings containing %; int literals at the widths 2^8 .. 2^53; effect probes (trace \"tN\" e) on about a fifth of the sub-expressions and on both sides of && / ||, both if branches and match arms. Oracle: fc must accept, go build must succeed, the binary must exit 0 and its stdout must equal, byte for byte, the trace of the independent reference evaluator (strict, left-to-right, lexical scoping). Plus the hand-kept corpus corpus/seeds/*.fo with hand-derived expected output. Non-trivial = the expected output contains at least one probe line and the program uses at least one of partial application / closure capture / match / if-as-value / pipe / lambda; distinct = hash of the source text.",
+		Rule:      "type-directed generation (rapid) of whole programs of the documented subset: shared record/union declarations (incl. self-referential ones), a prelude with the probe function and generic helpers, 1..8 units (helper functions, a recursive template, an entry function, one printing line in main), bodies built from lets, destructuring, function-valued lets, local functions (closures), lambdas, partial application of user / library / constructor functions, pipes and pipe chains, if/elif/else as statement and value, union match (all arm forms, default, any order) and string match (variable arm / default), records (permuted and qualified literals, field access, _.Field), tuples, slices, the operators, the four string literal forms (plain ones with \\t \\n \\\" \\\\ escapes) and standard-library calls incl. buf.Buffer episodes (writes direct, piped, under an if, through a partial application or a closure handed to slice.Iter) and dict.Dict episodes (dict.New with explicit type arguments / dict.ToDict, overwriting Adds, TryFind / ContainsKey / Item incl. absent keys, Keys / Values / KVs only through slice.Sort or slice.Length); one let in four reuses the name of a variable of an enclosing block (shadowing); mixed && / || chains of 3..4 probed operands grouped to either side; a one-line if without else as last statement of a then-block that is followed by else; a union / string match with valued arms written as a statement (value discarded); formats with %% and strings containing %; int literals at the widths 2^8 .. 2^53; effect probes (trace \"tN\" e) on about a fifth of the sub-expressions and on both sides of && / ||, both if branches and match arms. Also generated: prelude functions that return functions (a value-returning and a unit-returning one) used as pipe stages and slice.Iter arguments, unions some of whose cases carry a function that is applied in its arm, match payload binders that shadow the matched variable, discarded match values in statement position, dictionary and buffer episodes. Oracle: fc must accept, go build must succeed, the binary must exit 0 and its stdout must equal, byte for byte, the trace of the independent reference evaluator (strict, left-to-right, lexical scoping). Plus the hand-kept corpus corpus/seeds/*.fo with hand-derived expected output. Non-trivial = the expected output contains at least one probe line and the program uses at least one of partial application / closure capture / match / if-as-value / pipe / lambda; distinct = hash of the source text.",
 		Technique: "property-based testing (rapid) with a type-directed program generator, differential against an independent reference evaluator; compile-and-run of the emitted Go",
 		Assumptions: []string{
 			"programs stay inside the documented subset written down in DESIGN.md section 3 (each restriction with its source); steering counts are reported in the samples",
@@ -226,7 +226,7 @@ var props = []propCfg{
 			{Name: "TestLayouts", Rapid: true, Quick: 640, Thorough: 16000, ShardsQ: 16, ShardsT: 16},
 			{Name: "TestDedent", Rapid: true, Quick: 640, Thorough: 8000, ShardsQ: 8, ShardsT: 16},
 		},
-		Rule:      "a generated program of the full profile (1..3 units) is printed once in the canonical layout and three times with a random layout plan whose every decision is an independent rapid draw inside the layout grammar of the statement: body indentation 1..9 per block, blank lines, trailing spaces, own-line // and /* */ comments (also spanning lines, and texts such as /*/ note */, /***/, /* // */, // /* not open) at any indentation, trailing comments, one-line vs multi-line if, a let right-hand side or a match arm body on the same or the next line, a multi-line arm body started on the -> line and continued under its first token, a line break before any |> (aligned or block form), one-line vs multi-line record declarations, indentation of union cases and match arms; all must yield byte-identical gen_prog.go (one evaluation = one re-laid-out text). Converse direction (TestDedent): hand-templated nested blocks (if-only, else branch, match arm, local function) with a marked statement written at the outer column and at the inner column: the two must give different Go, and re-indenting the inner block by another amount must give the same Go again. Non-trivial (layouts) = the plan deviates from canonical in >= 3 kinds of choice and the program reaches nesting depth >= 3; all dedent cases are non-trivial; distinct = hash of the re-laid-out text.",
+		Rule:      "a generated program of the full profile (1..3 units) is printed once in the canonical layout and three times with a random layout plan whose every decision is an independent rapid draw inside the layout grammar of the statement: body indentation 1..9 per block, blank lines, trailing spaces, own-line // and /* */ comments (also spanning lines, and texts such as /*/ note */, /***/, /* // */, // /* not open) at any indentation, trailing comments, one-line vs multi-line if, a let right-hand side or a match arm body on the same or the next line, a multi-line arm body started on the -> line and continued under its first token, a line break before any |> (aligned or block form), one-line vs multi-line record declarations, indentation of union cases and match arms; all must yield byte-identical gen_prog.go (one evaluation = one re-laid-out text). Layout decisions also cover: an arm body starting on the -> line, match arms offset to the left or right of `match` after a next-line let right-hand side, a one-line if before an outer else, comments of the /*/ shape. Converse direction (TestDedent): hand-templated nested blocks (if-only, else branch, match arm, local function) with a marked statement written at the outer column and at the inner column: the two must give different Go, and re-indenting the inner block by another amount must give the same Go again. Non-trivial (layouts) = the plan deviates from canonical in >= 3 kinds of choice and the program reaches nesting depth >= 3; all dedent cases are non-trivial; distinct = hash of the re-laid-out text.",
 		Technique: "metamorphic property-based testing (rapid): same abstract program, different concrete layout => identical output; and its converse",
 		Assumptions: []string{
 			"layouts stay inside the grammar the property lists (no tabs, code never follows a multi-line comment on its last line)",
@@ -242,7 +242,7 @@ var props = []propCfg{
 			{Name: "TestHistories", Rapid: true, Quick: 800, Thorough: 24000, ShardsQ: 16, ShardsT: 16},
 			{Name: "TestSharedFieldRecords", Rapid: true, Quick: 800, Thorough: 16000, ShardsQ: 16, ShardsT: 16},
 		},
-		Rule:      "a generated program (full profile, 1..4 units) is a sequence of top-level items (type declarations, prelude functions, helper/entry functions, main) with a reference relation computed from the identifiers each item mentions. rapid draws a history transformation: delete a random set of items nothing kept refers to; emit the kept items in a different topological order; merge in the items of an independently generated unrelated program (own types, matches, lambdas, _.Field, disjoint names) at random positions; cut the sequence into 2..4 files placed in different directories and passed to one fc invocation in order, a cut consisting only of type declarations optionally becoming a .foi file. Oracle: both runs exit 0; the files written are exactly gen_<base>.go next to each .fo argument and nothing for .foi; every Go declaration (func, type, var, method; found with go/parser) that occurs in both runs is identical after renaming compiler temporaries _vN per declared object (parser scope resolution) in order of first occurrence. Non-trivial = a non-identity transformation with at least one kept function that contains a match, a _.Field shorthand or a generic instantiation; distinct = hash of the case. TestSharedFieldRecords aims the same transformations and oracle at the state fc keeps longest, the lookup of a record by its field names: small programs with 1..2 field-name sets, 2..3 records per set (names drawn so that a later one may sort before an earlier one) declared at random places among 2..5 functions per set that return / bind / compare unqualified literals (fields in any order), read fields through a parameter annotated with one of the records, or write a qualified literal; also an and-group with a forward reference used with and without annotations, and two unions that share a case name (bare in one, with payload in the other, the later declaration wins) with uses between and after them; every function is unreferenced, so any subset can be deleted (non-trivial = non-identity transformation). A further transformation puts 60 or 130 unrelated and-groups in front.",
+		Rule:      "a generated program (full profile, 1..4 units) is a sequence of top-level items (type declarations, prelude functions, helper/entry functions, main) with a reference relation computed from the identifiers each item mentions. rapid draws a history transformation: delete a random set of items nothing kept refers to; emit the kept items in a different topological order; merge in the items of an independently generated unrelated program (own types, matches, lambdas, _.Field, disjoint names) at random positions; cut the sequence into 2..4 files placed in different directories and passed to one fc invocation in order, a cut consisting only of type declarations optionally becoming a .foi file. Oracle: both runs exit 0; the files written are exactly gen_<base>.go next to each .fo argument and nothing for .foi; every Go declaration (func, type, var, method; found with go/parser) that occurs in both runs is identical after renaming compiler temporaries _vN per declared object (parser scope resolution) in order of first occurrence. Non-trivial = a non-identity transformation with at least one kept function that contains a match, a _.Field shorthand or a generic instantiation; distinct = hash of the case. TestSharedFieldRecords aims the same transformations and oracle at the state fc keeps longest, the lookup of a record by its field names: small programs with 1..2 field-name sets, 2..3 records per set (names drawn so that a later one may sort before an earlier one) declared at random places among 2..5 functions per set that return / bind / compare unqualified literals (fields in any order), read fields through a parameter annotated with one of the records, or write a qualified literal; also an and-group with a forward reference used with and without annotations, and two unions that share a case name (bare in one, with payload in the other, the later declaration wins) with uses between and after them; every function is unreferenced, so any subset can be deleted (non-trivial = non-identity transformation). The shared-state programs also contain a record named like a type parameter (V / K / T) next to a raw package_info item using that letter, and and-groups Cfg/Lim read through un-annotated parameters. A further transformation puts 60 or 130 unrelated and-groups in front.",
 		Technique: "metamorphic property-based testing (rapid) over definition histories: transformations of the top-level item sequence must leave each surviving definition's Go unchanged",
 		Assumptions: []string{
 			"later files see earlier files' definitions; files are passed in dependency order",
@@ -257,7 +257,7 @@ var props = []propCfg{
 		Tests: []testCfg{
 			{Name: "TestDeterminism", Rapid: true, Quick: 320, Thorough: 8000, ShardsQ: 16, ShardsT: 16},
 		},
-		Rule:      "programs of the many-dicts profile: >= 3 records (half of them with a twin record that has exactly the same field names, so unqualified literals are ambiguous) and >= 2 unions, 1..3 generated units with matches and lambdas, three package_info blocks (one for package _, one declaring three types that are used by name in annotations) with 3..7 entries each plus functions that use them and a function with 6 un-annotated parameters, some parameter annotations erased, and deliberately broken variants (a union arm removed => non-exhaustive match, an unknown identifier) for the accept/reject half. Each program is run under 9 enumeration orders: 3 repetitions of the unmodified fc in fresh processes (Go's random map order) and fc built with a build-time overlay of pkg/dict (derived from the current dict.go) whose Keys/Values/KVs return the entries sorted, reversed, rotated by a drawn amount, in 3 drawn shuffles, and twice in the mode where every single enumeration gets its own shuffle (two range loops over one Go map need not agree, so Keys d and Values d may not correspond). Oracle: every run has the same accept/reject decision and byte-identical gen_prog.go (diagnostic text is not compared). One evaluation = one fc run. Non-trivial = the program puts >= 2 entries into at least two of the dictionaries fc enumerates (record table, package_info tables, equivalence sets of inference variables) and was run under >= 3 orders; distinct = hash of the source.",
+		Rule:      "programs of the many-dicts profile: >= 3 records (half of them with a twin record that has exactly the same field names, so unqualified literals are ambiguous) and >= 2 unions, 1..3 generated units with matches and lambdas, three package_info blocks (one for package _, one declaring three types that are used by name in annotations) with 3..7 entries each plus functions that use them and a function with 6 un-annotated parameters, some parameter annotations erased, and deliberately broken variants (a union arm removed => non-exhaustive match, an unknown identifier) for the accept/reject half. Each program is run under 9 enumeration orders: 3 repetitions of the unmodified fc in fresh processes (Go's random map order) and fc built with a build-time overlay of pkg/dict (derived from the current dict.go) whose Keys/Values/KVs return the entries sorted, reversed, rotated by a drawn amount, in 3 drawn shuffles, and twice in the mode where every single enumeration gets its own shuffle (two range loops over one Go map need not agree, so Keys d and Values d may not correspond). The program pool includes two hand-templated functions whose equivalence classes stay unresolved across a let (field access on an undetermined record / any), and package_info blocks with three types. Oracle: every run has the same accept/reject decision and byte-identical gen_prog.go (diagnostic text is not compared). One evaluation = one fc run. Non-trivial = the program puts >= 2 entries into at least two of the dictionaries fc enumerates (record table, package_info tables, equivalence sets of inference variables) and was run under >= 3 orders; distinct = hash of the source.",
 		Technique: "metamorphic property-based testing (rapid) with controlled nondeterminism: the same input under adversarial dictionary enumeration orders (build-time overlay) and repeated processes must give identical output",
 		Assumptions: []string{
 			"fc consults no clock, environment or goroutine scheduling; dictionary order and process identity are the only sources of nondeterminism explored",
@@ -289,7 +289,7 @@ var props = []propCfg{
 			{Name: "TestSingleCharacters", ShardsQ: 16, ShardsT: 16},
 			{Name: "TestRandomLiterals", Rapid: true, Quick: 160, Thorough: 6400, ShardsQ: 16, ShardsT: 16},
 		},
-		Rule:      "a literal = (form in {\"...\", `...`, $\"...\", $`...`}, intended text, holes). The renderer writes the text in the form's documented source syntax (\\n \\t \\\\ \\\" escapes in quoted forms, everything raw in backtick forms, \\{ \\} for literal braces in $\"...\"); texts a form cannot denote (a backtick in raw forms, braces in $`...`) are outside its domain. Exhaustive part: every character of printable ASCII, newline, tab and 6 multi-byte runes, alone, on both sides of each of \\ \" { } %, and around a hole, in each of the 4 forms (about 3,900 literals, 60 per program; thorough adds all two-sided neighbour pairs). Sampled part (rapid): texts of 0..12 pieces (one in forty preceded by a body of 255..65536 bytes around buffer sizes) drawn from the alphabet and from hostile pieces (%s %d \\n {} \\\\ %% ...) with 0..4 holes bound to variables of type int (incl. negative), string (containing % and braces), bool, tuple, slice, record, union. Every literal is printed with frt.Printf1 \"%q\\n\" by a transpiled, compiled and executed program; oracle: strconv.Unquote of the printed line equals the intended text with each hole replaced by the value's display form. A failing batch is re-decided literal by literal. One evaluation = one literal. Non-trivial = the literal's value contains a character special to one of the three layers (\\ \" { } % $ `, newline, non-ASCII); distinct = hash of (form, source text).",
+		Rule:      "a literal = (form in {\"...\", `...`, $\"...\", $`...`}, intended text, holes). The renderer writes the text in the form's documented source syntax (\\n \\t \\\\ \\\" escapes in quoted forms, everything raw in backtick forms, \\{ \\} for literal braces in $\"...\"); texts a form cannot denote (a backtick in raw forms, braces in $`...`) are outside its domain. Exhaustive part: every character of printable ASCII, newline, tab and 6 multi-byte runes, alone, on both sides of each of \\ \" { } %, and around a hole, in each of the 4 forms (about 3,900 literals, 60 per program; thorough adds all two-sided neighbour pairs). Sampled part (rapid): texts of 0..12 pieces (one in forty preceded by a body of 255..65536 bytes around buffer sizes) drawn from the alphabet and from hostile pieces (%s %d \\n {} \\\\ %% ...) with 0..4 holes bound to variables of type int (incl. negative), string (containing % and braces), bool, tuple, slice, record, union. Every literal is printed with frt.Printf1 \"%q\\n\" by a transpiled, compiled and executed program; oracle: strconv.Unquote of the printed line equals the intended text with each hole replaced by the value's display form. Every literal is additionally used as a string-match pattern against its own intended text (a helper function per literal) and must select its arm. A failing batch is re-decided literal by literal. One evaluation = one literal. Non-trivial = the literal's value contains a character special to one of the three layers (\\ \" { } % $ `, newline, non-ASCII); distinct = hash of (form, source text).",
 		Technique: "round-trip property (text -> Folang literal -> Go literal -> runtime value -> text): exhaustive single-character sweep + property-based testing (rapid), compile-and-run",
 		Assumptions: []string{
 			"holes contain a single variable name (all documented examples); display forms are those of the C01 display model",
@@ -306,7 +306,7 @@ var props = []propCfg{
 			{Name: "TestForeignCalls", Rapid: true, Quick: 160, Thorough: 3200, ShardsQ: 16, ShardsT: 16},
 			{Name: "TestRecursiveDeclarations", Rapid: true, Quick: 160, Thorough: 3200, ShardsQ: 16, ShardsT: 16},
 		},
-		Rule:      "(i) declarations: 2..5 random record / union declarations (generic or not, upper- and lower-case type and field names, field and payload types over int/string/bool/slices/2- and 3-tuples/earlier records and unions/type parameters), and per used type a Folang function with a unit parameter that builds a value, a top-level variable (read by the Go client through its address; a quarter of the uses add a top-level variable holding a lambda, which the client wraps with a counting function before a Folang function calls it), a function showing a value, a function with unit result, an identity function, plus functions with 2..4 parameters; together with a GENERATED GO CLIENT in the same package that uses them only through the documented names: struct literals R{F: v} / R[int]{...} and field reads, New_U_C(v), the New_U_C variable, New_U_C[T](v) / New_U_C[T]() for generic unions, a type switch over U_C reading .Value, frt.Tuple2/3 literals with E0..E2, calls f(a, b) in parameter order, no parameter for (), no result for unit, package variables. (ii) foreign calls: random package_info blocks for package _ (implemented in the client file) and for a named sibling Go package, with 1..4-ary signatures over int/string/bool/[]int/opaque types/type parameters and generated Go implementations that print their arguments in order and return a value computed from them; Folang call sites in every arity from 1 to full: direct, through a let-bound partial application, as a pipe stage, as a higher-order argument, with explicit type arguments; a quarter of the non-generic functions get a type parameter that occurs only in the result ([]R, zero values printed), which Go cannot infer and which is therefore instantiated explicitly in every call form incl. the bare reference `x |> F<int>`. (iii) self-referential and `and`-group declarations: 1..3 groups of 1..3 records / unions whose fields and payloads mention the type being defined or another (earlier or later) member of the group below a drawn type constructor ([]X, dict.Dict<string, X>, []Bx<X>, Op<X>, int*[]X, Op<int>*Op<X>, Bx<Bx<X>>, X itself where Go allows it, ...); the Go client states the documented Go type of every such field / payload in a function signature (func chk(x Ty3) dict.Dict[string, Ty2] { return x.F3a }). Oracle: the whole package (gen_decl.go + client.go [+ sibling package]) compiles and its stdout equals what the documented representation and the foreign functions' own printing predict. Non-trivial = a generic declaration used from Go, or a foreign function of arity >= 3 applied partially; distinct = hash of the case.",
+		Rule:      "(i) declarations: 2..5 random record / union declarations (generic or not, upper- and lower-case type and field names, field and payload types over int/string/bool/slices/2- and 3-tuples/earlier records and unions/type parameters), and per used type a Folang function with a unit parameter that builds a value, a top-level variable (read by the Go client through its address; a quarter of the uses add a top-level variable holding a lambda, which the client wraps with a counting function before a Folang function calls it), a function showing a value, a function with unit result, an identity function, plus functions with 2..4 parameters; together with a GENERATED GO CLIENT in the same package that uses them only through the documented names: struct literals R{F: v} / R[int]{...} and field reads, New_U_C(v), the New_U_C variable, New_U_C[T](v) / New_U_C[T]() for generic unions, a type switch over U_C reading .Value, frt.Tuple2/3 literals with E0..E2, calls f(a, b) in parameter order, no parameter for (), no result for unit, package variables. (ii) foreign calls: random package_info blocks for package _ (implemented in the client file) and for a named sibling Go package, with 1..4-ary signatures over int/string/bool/[]int/opaque types/type parameters and generated Go implementations that print their arguments in order and return a value computed from them; Folang call sites in every arity from 1 to full: direct, through a let-bound partial application, as a pipe stage, as a higher-order argument, with explicit type arguments; a quarter of the non-generic functions get a type parameter that occurs only in the result ([]R, zero values printed), which Go cannot infer and which is therefore instantiated explicitly in every call form incl. the bare reference `x |> F<int>`. (iii) self-referential and `and`-group declarations: 1..3 groups of 1..3 records / unions whose fields and payloads mention the type being defined or another (earlier or later) member of the group below a drawn type constructor ([]X, dict.Dict<string, X>, []Bx<X>, Op<X>, int*[]X, Op<int>*Op<X>, Bx<Bx<X>>, X itself where Go allows it, ...); the Go client states the documented Go type of every such field / payload in a function signature (func chk(x Ty3) dict.Dict[string, Ty2] { return x.F3a }). Record literals on the Folang side list their fields in a drawn order; records are also built by functions with un-annotated parameters that the Go client calls with typed arguments; foreign functions with phantom type parameters; top-level variables read through their address and a top-level lambda variable wrapped by the Go client; names with underscores. Oracle: the whole package (gen_decl.go + client.go [+ sibling package]) compiles and its stdout equals what the documented representation and the foreign functions' own printing predict. Non-trivial = a generic declaration used from Go, or a foreign function of arity >= 3 applied partially; distinct = hash of the case.",
 		Technique: "property-based testing (rapid) with generated Go client code and generated Go implementations: differential between the documented representation and what fc emits, decided by compiling and running",
 		Assumptions: []string{
 			"the documented representation is the one in the property statement (docs/specs/union.md, note.md, tutorial 4)",
@@ -322,7 +322,7 @@ var props = []propCfg{
 			{Name: "TestKnown", ShardsQ: 1, ShardsT: 1},
 			{Name: "TestSignatures", Rapid: true, Quick: 480, Thorough: 9600, ShardsQ: 16, ShardsT: 16},
 		},
-		Rule:      "programs of the inference profile: fixed declarations (a record, a generic record, a union, a generic union) and 3..9 top-level functions of 1..4 parameters (base types, slices, tuples, records, unions, generic instantiations, function-typed parameters) whose bodies are built forward from the constructs the documents promise inference for: arithmetic / comparison with an operand of known type, calls of library functions with concrete and with generic signatures, lambdas passed to typed higher-order functions, tuples, slice literals, destructuring, record / generic record / union / generic union construction, field access on a known record, calls of earlier (possibly generic) user functions, a function-typed parameter applied once, pipes (also into partial applications), if/else. Two further families: staged unification (2..3 un-annotated parameters of one structured type used in separate lets that fix only the outer shape, one of them pinned, unified by a later =, if/else, slice literal or slice.Append) and fields of a parameter determined earlier (a record parameter, usually un-annotated, whose type the first statement fixes through a reader call, a comparison with a literal or a shared slice literal; later lets read its fields without adding a relation - let xs = p.HS, let (a, b) = p.HP - and use them in arithmetic, destructuring and slice.Map with an un-annotated function parameter); type variables only in the result (2..3 lets bind lambdas with unconstrained parameters, the result is a tuple of them in another order: numbering by first occurrence in the result); dictionary parameters (dict.Keys / Values / ContainsKey / TryFind; the key type is always fixed because Go's dict.Dict needs a comparable key, the value type may stay open - only inside dict.Dict<..>). One lambda parameter in three is named like an outer variable. Each parameter annotation is erased with probability 2/3 while generating, a result annotation is kept with probability 1/5. Oracle: (a) the func declaration found with go/parser in gen_prog.go (type parameter list with constraint any, parameter and result types) equals the Go mapping of the principal type computed by an independent Hindley-Milner inference (occurs check, n-ary function types, fresh instantiation per reference, monomorphic let) under exactly the annotations kept; (b) a second variant in which every further annotation is erased that the reference inference shows to leave all principal types unchanged yields byte-identical gen_prog.go; (c) the emitted package type-checks with go build together with a generated Go file that instantiates each generic function at two different type-argument lists. One evaluation = one function signature compared. Non-trivial = a program with at least one erased annotation or one surviving type parameter (reported per program); distinct = hash of the source.",
+		Rule:      "programs of the inference profile: fixed declarations (a record, a generic record, a union, a generic union) and 3..9 top-level functions of 1..4 parameters (base types, slices, tuples, records, unions, generic instantiations, function-typed parameters) whose bodies are built forward from the constructs the documents promise inference for: arithmetic / comparison with an operand of known type, calls of library functions with concrete and with generic signatures, lambdas passed to typed higher-order functions, tuples, slice literals, destructuring, record / generic record / union / generic union construction, field access on a known record, calls of earlier (possibly generic) user functions, a function-typed parameter applied once, pipes (also into partial applications), if/else. Two further families: staged unification (2..3 un-annotated parameters of one structured type used in separate lets that fix only the outer shape, one of them pinned, unified by a later =, if/else, slice literal or slice.Append) and fields of a parameter determined earlier (a record parameter, usually un-annotated, whose type the first statement fixes through a reader call, a comparison with a literal or a shared slice literal; later lets read its fields without adding a relation - let xs = p.HS, let (a, b) = p.HP - and use them in arithmetic, destructuring and slice.Map with an un-annotated function parameter); type variables only in the result (2..3 lets bind lambdas with unconstrained parameters, the result is a tuple of them in another order: numbering by first occurrence in the result); dictionary parameters (dict.Keys / Values / ContainsKey / TryFind; the key type is always fixed because Go's dict.Dict needs a comparable key, the value type may stay open - only inside dict.Dict<..>). One lambda parameter in three is named like an outer variable. Each parameter annotation is erased with probability 2/3 while generating, a result annotation is kept with probability 1/5. Oracle: (a) the func declaration found with go/parser in gen_prog.go (type parameter list with constraint any, parameter and result types) equals the Go mapping of the principal type computed by an independent Hindley-Milner inference (occurs check, n-ary function types, fresh instantiation per reference, monomorphic let) under exactly the annotations kept; (b) a second variant in which every further annotation is erased that the reference inference shows to leave all principal types unchanged yields byte-identical gen_prog.go; (c) the emitted package type-checks with go build together with a generated Go file that instantiates each generic function at two different type-argument lists. Dedicated families on top of the random bodies: staged unification, field access on an undetermined record, result-only type variables, dictionary parameters, lambda parameters named like outer variables, generic records / unions known half from each side, and a generic function whose type mentions one generic union at several places (the variable at a later or nested mention) instantiated at several types in one body and from generic callers. One evaluation = one function signature compared. Non-trivial = a program with at least one erased annotation or one surviving type parameter (reported per program); distinct = hash of the source.",
 		Technique: "property-based testing (rapid) against an independent reference type inference (principal types) + metamorphic annotation erasure + Go type-check of the emitted package",
 		Assumptions: []string{
 			"only constructs for which the documentation promises inference are generated (DESIGN.md section 3); arithmetic / ordering always has an operand whose type is fixed where it is written; a function-typed parameter is applied at most once",
